@@ -354,6 +354,49 @@ class Ctx:
             w.stop()
 
 
+def file_crosscheck(ctx, res, docs, want_ok, want_json, detail, rng):
+    """The same stream of root documents written as one file in a random input format and style, evaluated by the real
+    binary, must give what the library gave for the in-memory values (status, and bytes of the json output)."""
+    from . import ser
+    fmts = ['json', 'yaml', 'yaml']
+    if all(ser.toml_ok(d) for d in docs):
+        fmts.append('toml')
+    if any(not isinstance(d, (dict, list)) for d in docs):
+        fmts = ['json']
+    fmt = rng.choice(fmts)
+    try:
+        text = ser.write(fmt, docs, rng)
+        back = ser.parse(fmt, text)
+    except Exception:
+        return True
+    from .val import veq
+    if not veq(back, docs):
+        res.ev('generator_rejected')
+        return True
+    d = ctx.casedir()
+    try:
+        with open(os.path.join(d, 'in.' + fmt), 'w') as f:
+            f.write(text)
+        r = cli([ctx.bin('bkl'), '-f', 'json', 'in.' + fmt], cwd=d)
+        res.execs += 1
+        res.labels.add('via:file-' + fmt)
+        if r.rc not in (0, 1) or b'panic:' in r.err:
+            res.violate('crash', 'bkl binary died rc=%s %s' % (r.rc, r.err[-300:].decode('utf-8', 'replace')), file_format=fmt, text=text, **detail)
+            return False
+        if (r.rc == 0) != want_ok:
+            res.violate('file', 'the same documents from a %s file %s but from memory %s' % (fmt, 'succeed' if r.rc == 0 else 'fail (%s)' % r.err[-200:].decode('utf-8', 'replace'),
+                                                                                             'succeed' if want_ok else 'fail'), file_format=fmt, text=text, **detail)
+            return False
+        if want_ok and r.out != want_json:
+            res.violate('file', 'the same documents from a %s file evaluate differently than from memory' % fmt, file_format=fmt, text=text,
+                        from_file=r.out.decode('utf-8', 'replace'), from_memory=want_json.decode('utf-8', 'replace'), **detail)
+            return False
+        res.ev('file_crosschecks')
+        return True
+    finally:
+        ctx.cleanup_case(d)
+
+
 def out_bytes(r):
     """Output bytes of an output/to_writer op result (None on error)."""
     if r.get('out') is not None:
